@@ -10,6 +10,10 @@ use crate::runner::{
 };
 
 pub mod adapters;
+pub mod frontend;
+pub mod ir;
+pub mod misc;
+pub mod schema;
 pub mod world;
 
 pub struct Report {
